@@ -20,6 +20,7 @@ Obs(r) == [err |-> r.err, n |-> r.rn, buf |-> r.buf, pos |-> r.pos]
 Judge(r) ==
     IF r.op = "print" THEN PrintOK(r) ELSE
     IF r.op = "pipe" THEN PipeOK(r) ELSE
+    IF r.op = "impl" THEN ImplOK(r) ELSE
     /\ r.panic = ""
     /\ CASE r.op = "read_to_end"    -> ReadToEndOK(Obs(r), r.init, r.data, r.script)
          [] r.op = "read_to_string" -> ReadToStringOK(Obs(r), r.init, r.data, r.script)
